@@ -15,7 +15,7 @@ from hypothesis import strategies as st
 from .. import ast as A
 from ..runner import Outcome, fail, open_features
 from ..strategies import Cfg, query_case, chance
-from ..world import build_entities, CLASSES
+from ..world import build_entities, CLASSES, InjectedFault
 from ..build import build_over
 from ..qcheck import case_features
 
@@ -34,10 +34,11 @@ ASSUMPTIONS = ["the one-shot iterator is the domain of exactly one variable", "a
 
 
 class LoggingIterator:
-    def __init__(self, items):
+    def __init__(self, items, fail_at=None):
         self.items = list(items)
         self.pos = 0
         self.log = []
+        self.fail_at = fail_at        # the source raises ONCE when it is asked for this element, and delivers it next time
 
     def __iter__(self):
         return self
@@ -45,6 +46,9 @@ class LoggingIterator:
     def __next__(self):
         if self.pos >= len(self.items):
             raise StopIteration
+        if self.fail_at is not None and self.pos == self.fail_at:
+            self.fail_at = None
+            raise InjectedFault(f"the source failed once at element {self.pos}")
         self.log.append(self.pos)
         self.pos += 1
         return self.items[self.pos - 1]
@@ -72,6 +76,9 @@ def _case(draw, tier):
     c["ops"] = ops
     # every result of an evaluation may be requested while a symbolic block is open around the consumer
     c["ambients"] = [draw(st.sampled_from(["none", "none", "query", "rule"])) for _ in ops]
+    # the source itself (user code) fails once, transiently, at some element: the evaluation that hits it is aborted, later
+    # ones go on from where the source is
+    c["source_fails_at"] = draw(st.sampled_from([None, None, None, 0, 1, 2, 3]))
     return c
 
 
@@ -110,7 +117,7 @@ def check(case) -> Outcome:
     cond = case.get("cond")
     qualifies = [isinstance(o, CLASSES["Ent"]) and (cond is None or A.eval_cond(cond, {0: o})) for o in items]
     q_idx = [i for i, q in enumerate(qualifies) if q]
-    it = LoggingIterator(items)
+    it = LoggingIterator(items, case.get("source_fails_at"))
     classes = ["no_cond" if cond is None else "cond", "decl_" + case["vars"][0]["decl"]]
     if any(type(o).__name__ in ("Other", "Foreign") for o in items):
         classes.append("mixed_types")
@@ -141,11 +148,19 @@ def check(case) -> Outcome:
                         classes=classes, features=feats)
         want_n = op[1] if op[0] == "partial" else None
         got = []
+        aborted = False
         while want_n is None or len(got) < want_n:
             try:
                 with _ambient((case.get("ambients") or [])[step] if step < len(case.get("ambients") or []) else "none"):
                     r = next(gen)
             except StopIteration:
+                break
+            except InjectedFault:
+                # the source raised (once): this evaluation is over; what it delivered so far was checked above, and the next
+                # evaluations must deliver the rest
+                aborted = True
+                if "source_raised_once" not in classes:
+                    classes.append("source_raised_once")
                 break
             except Exception as e:
                 return fail("exception", f"step {step} {op}: {type(e).__name__}: {e}", classes=classes, features=feats)
@@ -167,6 +182,13 @@ def check(case) -> Outcome:
             if got != q_idx[:len(got)]:
                 return fail("wrong_kth_result", f"step {step} {op}: evaluation #{step + 1} yielded elements {got}, the "
                                                 f"qualifying elements are {q_idx}", classes=classes, features=feats)
+        if aborted:
+            try:
+                gen.close()
+            except Exception:
+                pass
+            first = False
+            continue
         if want_n is not None:
             if len(got) < want_n and got != q_idx:
                 return fail("wrong_full_result", f"step {step} {op}: the evaluation ended after {got}, qualifying {q_idx} "
